@@ -281,7 +281,7 @@ def stage_multi_wcs(rng, bad_items, quick):
 STAGES = [stage_visit, stage_visit, stage_transform, stage_multi_tan, stage_multi_wcs]
 
 
-def run_case(rng, stage_fn, with_faults=False, quick=True, replay=None):
+def run_case(rng, stage_fn, with_faults=False, quick=True, replay=None, forced_bad=None):
     desc, items, cap_mult, call = stage_fn(rng, None, quick)
     n = len(items)
     par = rng.choice((2, 2, 3, 5))
@@ -289,6 +289,8 @@ def run_case(rng, stage_fn, with_faults=False, quick=True, replay=None):
     bad = set()
     if with_faults and n:
         bad = {rng.randrange(n)}
+    if forced_bad is not None:
+        bad = set(forced_bad)
     mode = rng.choice(MODES)
     length = rng.choice((40, 120, 400))
     chooser = make_chooser(rng, mode, length)
